@@ -13,6 +13,7 @@ namespace Driver.PoolFam
 structure ScJ where
   workers : Int
   decisions : List String
+  procs : Option Nat := none      -- GOMAXPROCS of the run (the model does not depend on it)
   deriving FromJson, ToJson
 
 structure PointJ where
